@@ -67,6 +67,26 @@ def deep_family(h, body, depth=0, seen=None):
     return seen
 
 
+def fnitem_uses(fam, pred):
+    """[(body, bb, call term | None, fn path)] for function items (not calls) named by the family: arguments of calls
+    (`.map(HealthCheckResponse::new)`) and operands of statements (fn-pointer casts)"""
+    out = []
+    for m in fam:
+        for bb in m.live_blocks():
+            t = m.term(bb)
+            if t['k'] == 'call':
+                for a in t['args']:
+                    if 'k' in a and a['k'].get('fn') and pred(a['k']):
+                        out.append((m, bb, t, a['k']))
+            for st in m.blocks[bb]['stmts']:
+                rv = st.get('rv') if isinstance(st, dict) else None
+                if isinstance(rv, dict):
+                    for o in list(rv.get('ops', [])) + [rv[k_] for k_ in ('use', 'op') if isinstance(rv.get(k_), dict)]:
+                        if isinstance(o, dict) and 'k' in o and o['k'].get('fn') and pred(o['k']):
+                            out.append((m, bb, None, o['k']))
+    return out
+
+
 def trace(h, fam, body, term, depth=0):
     """a term with closure captures resolved and, when it is rooted in a parameter of a helper function, replaced by what the family
     passes for that parameter (one call site), repeatedly"""
@@ -310,16 +330,40 @@ def run(R):
         R.check(not fam_calls(FCK, name='borrow_and_update') and not fam_calls(FCK, name='changed'), 'C18.R3', 'check:not-consuming', site(ck), 'check does not consume change notifications')
         oknf, nnf = not_found_ok(FCK, ck, g)
         R.check(oknf, 'C18.R3', 'check:not_found-on-miss', site(ck), 'Status::not_found exactly when the name is not registered: %r (sites %d)' % (oknf, nnf))
+        lookupish = lambda x: (is_call(x) and (x[1] or '').startswith('tonic_health::server')) or (x and x[0] == 'yield') or is_call(x, name='poll') or is_call(x, name='borrow')
         nw = [(bb, t) for bb, t in ck.calls(name='new') if 'HealthCheckResponse' in (t.get('fn') or '')]
-        okn = len(nw) == 1 and term_contains(ck.origin(nw[0][1]['args'][0]), lambda x: (is_call(x) and (x[1] or '').startswith('tonic_health::server')) or (x and x[0] == 'yield') or is_call(x, name='poll') or is_call(x, name='borrow'))
+        okn = len(nw) == 1 and term_contains(ck.origin(nw[0][1]['args'][0]), lookupish)
+        if not nw:
+            # .map(HealthCheckResponse::new) over what the lookup returned
+            fu = [(m_, bb_, t_, k_) for m_, bb_, t_, k_ in fnitem_uses([ck], lambda k_: 'HealthCheckResponse' in k_['fn'] and k_['fn'].endswith('::new')) if t_ is not None and t_.get('name') == 'map']
+            okn = len(fu) == 1 and term_contains(ck.origin(fu[0][2]['args'][0]), lookupish)
         R.check(okn, 'C18.R3', 'check:returns-that-status', site(ck), 'HealthCheckResponse::new(status from the lookup)')
         wt = h.body(re.compile(r'server::HealthService as .*Health>::watch::\{closure#0\}$'))
         FWT, g, okk = lookup_facts(wt, 'watch')
         R.check(len(g) == 1 and okk, 'C18.R3', 'watch:lookup', site(wt), 'table.read().await.get(request.service): %d lookup(s), keyed by the request: %r' % (len(g), okk))
         cn = [(b_, bb, t) for b_, bb, t in fam_calls(FWT, name='clone') if 'watch::Receiver' in ((t.get('resolved') or '') + (t.get('self_ty') or ''))]
-        R.check(len(cn) == 1 and from_stored_rx(FWT, g, cn[0][0], cn[0][2]['args'][0]), 'C18.R3', 'watch:clone-stored-receiver', site(wt), 'rx.clone() of the stored receiver: %d site(s)' % len(cn))
+        okcn = len(cn) == 1 and from_stored_rx(FWT, g, cn[0][0], cn[0][2]['args'][0])
+        if not cn:
+            # `Receiver::clone` handed over as the projection the lookup helper applies to the stored receiver: the helper calls its
+            # function parameter on something derived from the get
+            cf = fnitem_uses(FWT, lambda k_: k_['fn'].endswith('Clone::clone') and any('watch::Receiver' in g_ for g_ in (k_.get('ga') or [])))
+            applied = False
+            for m_ in FWT:
+                for bb_, t_ in m_.calls():
+                    if t_.get('name') in ('call', 'call_once', 'call_mut') or (t_.get('fn') is None and t_.get('fnptr')):
+                        applied = applied or any(term_contains(trace(h, FWT, m_, m_.origin(a_)), lambda x: is_call(x, name='get') and 'HashMap' in x[1]) for a_ in t_['args'])
+                for bb_ in m_.live_blocks():
+                    t_ = m_.term(bb_)
+                    if t_['k'] == 'call' and not t_.get('fn') and any(term_contains(trace(h, FWT, m_, m_.origin(a_)), lambda x: is_call(x, name='get') and 'HashMap' in x[1]) for a_ in t_['args']):
+                        applied = True
+            okcn = len(cf) == 1 and applied
+        R.check(okcn, 'C18.R3', 'watch:clone-stored-receiver', site(wt), 'rx.clone() of the stored receiver: %d site(s)' % len(cn))
+        streamish = lambda x: is_call(x, name='clone') or (x and x[0] == 'yield') or is_call(x, name='poll') or (is_call(x) and (x[1] or '').startswith('tonic_health::server'))
         ws = [(bb, t) for bb, t in wt.calls(name='new') if (t.get('fn') or '').endswith('server::WatchStream::new')]
-        okws = len(ws) == 1 and term_contains(wt.origin(ws[0][1]['args'][0]), lambda x: is_call(x, name='clone') or (x and x[0] == 'yield') or is_call(x, name='poll') or (is_call(x) and (x[1] or '').startswith('tonic_health::server')))
+        okws = len(ws) == 1 and term_contains(wt.origin(ws[0][1]['args'][0]), streamish)
+        if not ws:
+            fu = [(m_, bb_, t_, k_) for m_, bb_, t_, k_ in fnitem_uses([wt], lambda k_: k_['fn'].endswith('server::WatchStream::new')) if t_ is not None and t_.get('name') == 'map']
+            okws = len(fu) == 1 and term_contains(wt.origin(fu[0][2]['args'][0]), streamish)
         R.check(okws, 'C18.R3', 'watch:stream-over-that-receiver', site(wt), 'WatchStream::new(the cloned receiver)')
         oknf, nnf = not_found_ok(FWT, wt, g)
         R.check(oknf, 'C18.R3', 'watch:not_found-on-miss', site(wt), 'Status::not_found when the name is not registered: %r (sites %d)' % (oknf, nnf))
